@@ -295,7 +295,7 @@ class CircuitOperation(ops.Operation):
         return tuple(q.dimension for q in self.qubits)
 
     def _is_measurement_(self) -> bool:
-        return self.circuit._is_measurement_()
+        return self.repetitions != 0 and self.circuit._is_measurement_()
 
     @cached_method
     def _has_unitary_(self) -> bool:
@@ -327,6 +327,8 @@ class CircuitOperation(ops.Operation):
 
     @cached_property
     def _measurement_key_objs(self) -> frozenset[cirq.MeasurementKey]:
+        if isinstance(self.repetitions, INT_CLASSES) and self.repetitions == 0:
+            return frozenset()
         circuit_keys = protocols.measurement_key_objs(self.circuit)
         if circuit_keys and self.use_repetition_ids:
             self._ensure_deterministic_loop_count()
